@@ -182,6 +182,7 @@ pub fn check_locks(ctx: &mut Ctx, case: &Value, t: &T, cfg: &Cfg, log: &[LockRec
             ctx.fail_corr(case, format!("the crate made {} passes, the model {}", passes.len(), n));
             return;
         }
+        let mut counts_differ = false;
         for (pi, ts) in passes.iter().enumerate() {
             let k = tk.nat();
             let model: Vec<Ev> = (0..k).map(|_| (tk.nat() as u8, tk.nat() as u8, tk.nat())).collect();
@@ -192,17 +193,30 @@ pub fn check_locks(ctx: &mut Ctx, case: &Value, t: &T, cfg: &Cfg, log: &[LockRec
             let b = multiset(model.into_iter().map(flat));
             let (ca, cb) = (chances(&a), chances(&b));
             let (pa, pb) = (players(a), players(b));
-            if pa != pb {
-                let only_a: Vec<_> = pa.iter().filter(|(e, c)| pb.get(e) != Some(c)).take(4).collect();
-                let only_b: Vec<_> = pb.iter().filter(|(e, c)| pa.get(e) != Some(c)).take(4).collect();
-                ctx.fail_corr(case, format!("pass {}: average-strategy mutex operations (op, kind, infoset) x count differ: crate {:?}, model {:?} (one lock per visited node of the infoset)", pi, only_a, only_b));
+            // WHICH infosets are touched in the pass is the contract ("visits exactly the sampled
+            // part of the tree"); HOW OFTEN a mutex is taken per visit is the crate's business (one
+            // lock per node today, which is what the model has: counted, reported, not demanded)
+            let (sa, sb): (Vec<&Ev>, Vec<&Ev>) = (pa.keys().collect(), pb.keys().collect());
+            if sa != sb {
+                let only_a: Vec<_> = sa.iter().filter(|e| !sb.contains(e)).take(4).collect();
+                let only_b: Vec<_> = sb.iter().filter(|e| !sa.contains(e)).take(4).collect();
+                ctx.fail_corr(case, format!("pass {}: player infosets whose average-strategy mutex was taken (op, kind, infoset): only in the crate {:?}, only in the model's traversal {:?}", pi, only_a, only_b));
                 return;
             }
-            if ca != cb {
+            if pa != pb {
+                counts_differ = true;
+            }
+            // (a crate that does not put its chance draws behind the observed mutex type shows no
+            // chance operations at all: nothing to compare then)
+            if !ca.is_empty() && ca != cb {
                 ctx.fail_corr(case, format!("pass {}: chance infosets whose mutex was taken: crate {:?}, model {:?}", pi, ca, cb));
                 return;
             }
         }
-        ctx.stat("vanilla_lock_traces_agree_with_model");
+        if counts_differ {
+            ctx.stat("vanilla_lock_counts_differ_from_model_same_infosets");
+        } else {
+            ctx.stat("vanilla_lock_traces_agree_with_model");
+        }
     }
 }
